@@ -387,6 +387,32 @@ P["C12"] = {"property": "C12", "level": "proof", "units": [
       expect=["contract_exact1_jwt_strcmp\\.postcondition\\.1", "jwt_strcmp\\.loop_invariant_step"]),
 ]}
 
+# =================== the OpenSSL provider entries (C01/C05/C12/C06) =========
+OSSL_SV = "libjwt/openssl/sign-verify.c"
+OSSL_STUBS = LIBC + ["stubs/alloc.c", "stubs/openssl.c"]
+def ossl_units(prefix):
+    return [
+        U(prefix + ".openssl_sign_sha_hmac", "openssl_sign_sha_hmac (libjwt/openssl/sign-verify.c)", OSSL_SV, "contracts/openssl_sv_c.h",
+          "jwt_t *jwt = malloc(sizeof(*jwt)); jwk_item_t *key = malloc(sizeof(*key)); __CPROVER_assume(jwt != NULL && key != NULL); jwt->key = key; char *o; unsigned int l; size_t n; __CPROVER_assume(n < 0x10000000); char *s = VS(n); unsigned sl; __CPROVER_assume(sl <= n); openssl_sign_sha_hmac(jwt, &o, &l, s, sl);",
+          "openssl_sign_sha_hmac/contract_ops_sign_sha_hmac", stubs=OSSL_STUBS, defines=["VERIF_TU_OSSL_SV"], pre=[VS],
+          expect=["contract_ops_sign_sha_hmac\\.postcondition\\.2", "HMAC\\.assertion"]),
+        U(prefix + ".openssl_verify_sha_pem", "openssl_verify_sha_pem (libjwt/openssl/sign-verify.c)", OSSL_SV, "contracts/openssl_sv_c.h",
+          "jwt_t *jwt = malloc(sizeof(*jwt)); jwk_item_t *key = malloc(sizeof(*key)); __CPROVER_assume(jwt != NULL && key != NULL); jwt->key = key; char *o; unsigned int l; size_t n; __CPROVER_assume(n < 0x10000000); char *s = VS(n); unsigned hl; __CPROVER_assume(hl <= n); int sl; __CPROVER_assume(sl >= 1 && sl <= 0x100000); unsigned char *sig = malloc(sl); __CPROVER_assume(sig != NULL); g_der_buf = NULL; g_der_sig = NULL; openssl_verify_sha_pem(jwt, s, hl, sig, sl);",
+          "openssl_verify_sha_pem/contract_ops_verify_sha_pem", stubs=OSSL_STUBS, defines=["VERIF_TU_OSSL_SV", "VERIF_STRCPY_ERRBUF"], pre=[VS],
+          expect=["contract_ops_verify_sha_pem\\.postcondition\\.1", "EVP_DigestVerify\\.assertion"]),
+        U(prefix + ".jwt_ec_d2i", "jwt_ec_d2i (libjwt/openssl/sign-verify.c)", OSSL_SV, "contracts/openssl_sv_c.h",
+          "jwt_t *jwt; char *o; unsigned l; unsigned sl; __CPROVER_assume(sl >= 1 && sl <= 1024); unsigned char *sig = malloc(sl); __CPROVER_assume(sig != NULL); jwt_t j; jwk_item_t k; j.key = &k; jwt_ec_d2i(&j, &o, &l, sig, sl);",
+          "jwt_ec_d2i/contract_C05_jwt_ec_d2i", stubs=OSSL_STUBS, defines=["VERIF_TU_OSSL_SV"],
+          expect=["contract_C05_jwt_ec_d2i\\.postcondition\\.2", "BN_bn2bin\\.assertion"]),
+        U(prefix + ".openssl_sign_sha_pem", "openssl_sign_sha_pem (libjwt/openssl/sign-verify.c)", OSSL_SV, "contracts/openssl_sv_c.h",
+          "jwt_t *jwt = malloc(sizeof(*jwt)); jwk_item_t *key = malloc(sizeof(*key)); __CPROVER_assume(jwt != NULL && key != NULL); jwt->key = key; char *o; unsigned int l; size_t n; __CPROVER_assume(n < 0x10000000); char *s = VS(n); unsigned sl; __CPROVER_assume(sl <= n); openssl_sign_sha_pem(jwt, &o, &l, s, sl);",
+          "openssl_sign_sha_pem/contract_ops_sign_sha_pem", replace=["jwt_ec_d2i/contract_C05_jwt_ec_d2i"],
+          stubs=OSSL_STUBS, defines=["VERIF_TU_OSSL_SV"], pre=[VS],
+          expect=["contract_ops_sign_sha_pem\\.postcondition\\.2", "EVP_DigestSign\\.assertion"]),
+    ]
+P["C01"]["units"] += ossl_units("C01")[:2]
+P["C05"] = {"property": "C05", "level": "proof", "units": ossl_units("C05")[2:]}
+
 # ============================ parsing units =================================
 VERIFY_JSON_STUBS = LIBC + ["stubs/time.c", "stubs/jansson.c", "stubs/alloc.c"]
 def parse_units(prop, clauses_name):
